@@ -233,6 +233,26 @@ def r08_4(rep, M, rid):
     else:
         rep.violation(rid, "candidate verification", "candidate variables are accepted without matching every generated position "
                       "against the structure", M.where(FQ))
+    # the public getter forwards its flag and the symmetry tolerance
+    pub = SA + ".get_wyckoff_sets_conventional"
+    for c in M.calls_to(pub, FQ):
+        b = M.bind_args(FQ, c)
+        rp, pr = b.get("return_parameters"), b.get("precision")
+        if rp is not None and norm(rp) == "return_parameters":
+            rep.ok(rid, "get_wyckoff_sets_conventional forwards return_parameters")
+        else:
+            rep.violation(rid, "get_wyckoff_sets_conventional: return_parameters", f"`{norm(rp) if rp is not None else None}` is passed instead of the caller's flag",
+                          M.where(pub, c))
+        if pr is not None and norm(pr) == "self.symmetry_tol":
+            rep.ok(rid, "matching precision = the analyzer's symmetry tolerance")
+        else:
+            rep.violation(rid, "get_wyckoff_sets_conventional: precision", f"atoms are matched to generated positions with `{norm(pr) if pr is not None else None}`, "
+                          "not with the symmetry tolerance the structure was analysed with", M.where(pub, c))
+    guard_rp = [t for t in ast.walk(fn) if isinstance(t, ast.If) and norm(t.test) == "return_parameters"]
+    if guard_rp:
+        rep.ok(rid, "parameters are solved exactly when return_parameters is set")
+    else:
+        rep.violation(rid, "_get_wyckoff_sets: return_parameters", "the parameter solving is not controlled by the flag", M.where(FQ))
     # periodic matching: the helper may skip its own wrapping (wrap=False) only for arguments that are wrapped already
     sp = SA + "._search_periodic_positions"
     sparams = M.params(sp)
